@@ -57,6 +57,28 @@ def crossdoc_case(rng):
     return {"steps": steps, "env": gen.ENV}
 
 
+def list_merge_patch_case(rng):
+    """`- $merge: ref` pulls a list of MAPS out of another document; a second `- $merge` in the same list brings $match
+    patches that edit those entries (or an entry carries a map-form $merge of its own).  The edits belong to the evaluation,
+    not to the stored documents."""
+    tmpl = {"kind": "T", "items": [{"n": 1, "v": "a"}, {"n": 2, "v": "b", "sub": {"k": 1}}]}
+    if rng.random() < 0.4:
+        tmpl["items"][1]["sub"] = {"$merge": "extra"}
+        tmpl["extra"] = {"e": 1}
+    patches = [{"$match": {"n": rng.choice([1, 2])}, "v": "patched"}]
+    if rng.random() < 0.4:
+        patches.append({"$match": {"n": 2}, "sub": {"more": 1}})
+    user = {"kind": "U", "patches": patches,
+            "out": [{"$merge": rng.choice([[{"kind": "T"}, "items"], {"$match": {"kind": "T"}, "$path": "items"}])}, {"$merge": "patches"}]}
+    docs = [tmpl, user] if rng.random() < 0.6 else [user, tmpl]
+    steps = [{"merge": {"id": f"D{i}", "parents": [], "data": d}} for i, d in enumerate(docs)]
+    steps += [rng.choice([{"outdocs": True}, {"out": rng.choice(FMTS)}]), {"docs": True}]
+    if rng.random() < 0.5:
+        steps.append({"merge": {"id": "P9", "parents": [], "data": {"$match": {"kind": "T"}, "added": 1}}})
+    steps += [{"docs": True}, {"outdocs": True}, {"outdocs": True}, {"docs": True}]
+    return {"steps": steps, "env": gen.ENV}
+
+
 def placeholder_case(rng):
     """empty maps / lists as placeholders next to a map-form $merge (evaluation merges INTO them): an output call must
     not fill the stored document's placeholders"""
@@ -77,7 +99,9 @@ def placeholder_case(rng):
 
 def gen_case(rng):
     r0 = rng.random()
-    if r0 < 0.08:
+    if r0 < 0.05:
+        return list_merge_patch_case(rng)
+    if r0 < 0.1:
         return placeholder_case(rng)
     if r0 < 0.3:
         return crossdoc_case(rng)
